@@ -54,7 +54,7 @@ PROCS = min(8, os.cpu_count() or 4)
 
 
 # ---- TLC side -----------------------------------------------------------------------------------------
-def export_universe(ctx: Ctx, *, minsize: int, maxsize: int, rich: bool, nshards: int, par: int) -> list[dict]:
+def export_universe(ctx: Ctx, *, minsize: int, maxsize: int, rich: bool, nshards: int, par: int, only: int | None = None) -> list[dict]:
     def one(s: int):
         wd = ctx.workdir(f"mc_xarray_{minsize}{maxsize}{int(rich)}_{s}")
         cfg = MC_CFG.format(maxsize=maxsize, minsize=minsize, rich="TRUE" if rich else "FALSE", shard=s, nshards=nshards,
@@ -62,7 +62,7 @@ def export_universe(ctx: Ctx, *, minsize: int, maxsize: int, rich: bool, nshards
         return run_tlc("MC_XarrayLabels", cfg, wd, workers=1, allow_violation=False, timeout=3000, heap="3g")
     cases = []
     with ThreadPoolExecutor(max_workers=par) as ex:
-        for r in ex.map(one, range(nshards)):
+        for r in ex.map(one, range(nshards) if only is None else [only]):
             ctx.add_tlc(r, f"MC_XarrayLabels universe sizes {minsize}..{maxsize} rich={rich}")
             cases += [p for t, p in parse_prints(r.prints) if t == "CASE"]
     if not cases:
@@ -187,7 +187,10 @@ def observe(job: dict) -> dict:
                 return obs
             all_names = sorted(str(k) for k in res)
             obs["outputs"] = all_names
+            want = job.get("want")
             for v in case["views"]:
+                if want is not None and [sorted(v["sel"]), v["li"]] not in want:
+                    continue
                 o: dict[str, Any] = {"sel": sorted(v["sel"]), "li": v["li"], "all": v["all"], "ds": {}, "exc": {}, "picks": []}
                 built = {}
                 apis = ["from_results", "load"] if v["all"] else ["load_one"]
@@ -356,14 +359,24 @@ def nontrivial(res: dict) -> bool:
 
 
 # ---- the check ----------------------------------------------------------------------------------------------
-def jobs_for(cases: list[dict], storages_of, kinds_of, keep: int = 0) -> list[dict]:
+def wanted_views(case: dict, k: int, every_single: bool) -> list | None:
+    """Which exported views a job builds: always the full dataset with load_intermediate on and off; every one-output
+    selection (thorough) or one of them, rotating over outputs and the switch (quick: each load re-reads the run folder)."""
+    if every_single:
+        return None
+    full = [[sorted(v["sel"]), v["li"]] for v in case["views"] if v["all"]]
+    singles = sorted([sorted(v["sel"]), v["li"]] for v in case["views"] if not v["all"])
+    return full + ([singles[k % len(singles)]] if singles else [])
+
+
+def jobs_for(cases: list[dict], storages_of, kinds_of, keep: int = 0, every_single: bool = True) -> list[dict]:
     jobs = []
     for k, c in enumerate(cases):
         names = [n for n, _ in c["inputs"]]
         for st in storages_of(k):
             for kind in kinds_of(k):
                 jobs.append({"k": len(jobs), "case": c, "storage": st, "kinds": {n: kind for n in names},
-                             "keep_obs": len(jobs) < keep})
+                             "keep_obs": len(jobs) < keep, "want": wanted_views(c, k, every_single)})
     return jobs
 
 
@@ -459,8 +472,10 @@ def run(ctx: Ctx) -> None:
                        "cannot be imported in this sandbox", "every array that is mapped over is a root input or the output of a "
                        "function with a MapSpec (XarrayLabels!Supported)"]
     if quick:
-        cases = export_universe(ctx, minsize=2, maxsize=2, rich=False, nshards=2, par=2)
-        jobs = jobs_for(cases, lambda k: [("dict", "file_array")[k % 2]], lambda k: [("ndarray", "list")[(k // 2) % 2]], keep=40)
+        # quick: the half of the size-2 universe selected by the seed (MC_MapDenote's Shard/NShards), one storage per case
+        cases = export_universe(ctx, minsize=2, maxsize=2, rich=False, nshards=2, par=1, only=ctx.seed % 2)
+        jobs = jobs_for(cases, lambda k: [("dict", "file_array")[k % 2]], lambda k: [("ndarray", "list")[(k // 2) % 2]], keep=40,
+                        every_single=False)
     else:
         check_same_universe(ctx)
         cases = export_universe(ctx, minsize=1, maxsize=2, rich=True, nshards=12, par=4)
@@ -486,7 +501,7 @@ def run(ctx: Ctx) -> None:
     selftest(ctx, jobs, results)
 
     # seeded random pipelines through the same model (Mode = "file")
-    items = random_items(rng, 120 if quick else 2500)
+    items = random_items(rng, 60 if quick else 2500)
     exported = export_file_cases(ctx, [{k: v for k, v in it.items() if not k.startswith("_")} for it in items], "random",
                                  chunk=60 if quick else 250, par=2 if quick else 4)
     rjobs = []
@@ -497,7 +512,7 @@ def run(ctx: Ctx) -> None:
             skipped += 1
             continue
         rjobs.append({"k": len(rjobs), "case": e, "pdesc": it["_pdesc"], "kinds": it["_kinds"],
-                      "storage": ("dict", "file_array")[it["id"] % 2]})
+                      "storage": ("dict", "file_array")[it["id"] % 2], "want": wanted_views(e, it["id"], not quick)})
     rresults = run_jobs(rjobs)
     for j, r in zip(rjobs, rresults):
         ctx.case({"d": j["case"]["desc"], "i": j["case"]["inputs"], "s": j["storage"], "k": j["kinds"]}, nontrivial(r))
@@ -521,7 +536,8 @@ def replay(rep: dict) -> int:
         if not case["supported"]:
             print("replay: case is outside the scope of XarrayLabels (Supported is false)")
             return 2
-        job = {"k": 0, "case": case, "pdesc": w.get("pdesc"), "kinds": w["kinds"], "storage": w["storage"], "keep_obs": True}
+        job = {"k": 0, "case": case, "pdesc": w.get("pdesc"), "kinds": w["kinds"], "storage": w["storage"], "keep_obs": True,
+               "want": None}
         res = work(job)
         for m in res["mismatches"]:
             print({k: v for k, v in m.items() if k != "msg"})
